@@ -1,5 +1,6 @@
 import PMV.Generated.Names
 import PMV.Proofs.Rename
+import PMV.Proofs.InPlace
 /-
   C04 — Externally visible names are never changed.
   On the NameAssigner model: pinned bindings (class-level names, dunder names, never-bound names,
@@ -32,6 +33,31 @@ theorem other_names_unprefixed (pg : Bool) (moduleNs : Ns) (rg : List String) (b
   obtain ⟨m, hm', hf⟩ := renamed_from_table _ pg _ _ r h hr
   refine ⟨m, hm', ?_⟩
   rw [hf]; simp [pfxOf, hm]
+
+/-- T04.5: `arg_rename_in_place`, stated outright: a parameter is renamed in the signature exactly when it is positional-only,
+    `*args`, `**kwargs`, or the first positional parameter of an undecorated / `@classmethod` function in a class body. -/
+theorem in_place_exactly (f : InPlace.Fn) (s : InPlace.Slot) :
+    InPlace.argRenameInPlace f s = true ↔
+      ((∃ i, s = .posonly i) ∨ s = .vararg ∨ s = .kwarg ∨
+        (InPlace.selfLike f = true ∧ f.nPosonly = 0 ∧ 0 < f.nArgs ∧ s = .arg 0)) :=
+  InPlace.argRenameInPlace_iff f s
+
+/-- T04.6: a parameter that a caller may pass by keyword keeps its spelling in the signature, unless it is the
+    `self` / `cls` of a method (the documented exception). -/
+theorem keyword_passable_in_place (f : InPlace.Fn) (s : InPlace.Slot) (hk : s.keywordPassable = true)
+    (h : InPlace.argRenameInPlace f s = true) : InPlace.selfLike f = true ∧ s = .arg 0 ∧ f.nPosonly = 0 :=
+  InPlace.keywordPassable_inPlace f s hk h
+
+/-- T04.7: keyword-only parameters, positional parameters after the first, and every positional-or-keyword parameter
+    of a lambda or of a function outside a class body are never renamed in the signature. -/
+theorem never_in_place (f : InPlace.Fn) (i : Nat) :
+    InPlace.argRenameInPlace f (.kwonly i) = false ∧ InPlace.argRenameInPlace f (.arg (i + 1)) = false ∧
+    ((f.inClass = false ∨ f.isLambda = true) → InPlace.argRenameInPlace f (.arg i) = false) :=
+  ⟨InPlace.kwonly_never_inPlace f i, InPlace.later_arg_never_inPlace f i, InPlace.function_arg_never_inPlace f i⟩
+
+example : InPlace.argRenameInPlace ⟨false, true, [.name "classmethod" .load], 0, 2⟩ (.arg 0) = true ∧
+    InPlace.argRenameInPlace ⟨false, true, [.name "staticmethod" .load], 0, 2⟩ (.arg 0) = false ∧
+    InPlace.argRenameInPlace ⟨true, true, [], 0, 2⟩ (.arg 0) = false := by decide
 
 example : pfxOf ⟨0, .builtin, some "print", 0, true, none, 0, true, [], []⟩ true = "_" := by decide
 
